@@ -1,6 +1,7 @@
 package symex
 
 import (
+	"sync/atomic"
 	"fmt"
 
 	"golang.org/x/tools/go/ssa"
@@ -348,6 +349,16 @@ type Unsupported struct{ Msg string }
 
 func (u *Unsupported) Error() string { return "unsupported: " + u.Msg }
 func unsupported(msg string) *Unsupported { return &Unsupported{msg} }
+
+// ResourceExceeded is set by the driver's memory watchdog; the executor gives up the current harness
+// (reported as inconclusive, never as success) instead of being killed by the kernel.
+var ResourceExceeded atomic.Bool
+
+func checkResources() {
+	if ResourceExceeded.Load() {
+		panic(&Unsupported{"resource bound: encoder memory limit reached (harness bounds too large for this machine); nothing is claimed for this harness"})
+	}
+}
 
 func mergeV(c *smt.Term, a, b Value) Value {
 	if a == b {
